@@ -151,12 +151,21 @@ def run(ctx, prop, relevant):
                samples=[strip(traces[0])[:14]], coverage_zero_actions=mc.coverage_zero, exhaustive=False)
     extra = []
     if ffut is not None:
-        fc = ffut.result()          # a MachineryError of the factory stage propagates (exit 2)
-        cov["factory_layer"] = {k: v for k, v in fc.items() if k not in ("samples",)}
-        cov["traces_validated_against_impl"] = len(traces) + fc["traces"]
-        cov["states"] += fc["states"]
-        cov["transitions"] += fc["transitions"]
-        extra = ["factory layer: " + a for a in factory.ASSUMPTIONS]
+        try:
+            fc = ffut.result()
+        except MachineryError as e:
+            # a dead factory-layer harness is exit 2 - unless the pool stages already hold violations judged by TLC on real
+            # executions: those stand on their own (a changed product may well crash one harness and break the property in another)
+            if not ctx.violations:
+                raise
+            ctx.notes.append("factory layer not judged (machinery error): %s" % str(e)[:300])
+            fc = None
+        if fc is not None:
+            cov["factory_layer"] = {k: v for k, v in fc.items() if k not in ("samples",)}
+            cov["traces_validated_against_impl"] = len(traces) + fc["traces"]
+            cov["states"] += fc["states"]
+            cov["transitions"] += fc["transitions"]
+            extra = ["factory layer: " + a for a in factory.ASSUMPTIONS]
     return finish(ctx, "model_checking", cov, extra + [
         "the pool stages run on a fake factory.Factory whose state mirrors NodePool.tla's cloud variable; quotas are not enforced by the fake, only judged",
         "error-after-effect results carry the created object (the contract of pkg/factory/aliyun, itself checked by the factory layer)",
